@@ -188,8 +188,19 @@ func (d *Driver) confirmHang(bin string, args []string, shard int, key string, w
 	}
 	var r Result
 	b, err := os.ReadFile(out)
-	return err != nil || json.Unmarshal(b, &r) != nil || !r.Done
+	if err != nil || json.Unmarshal(b, &r) != nil || !r.Done {
+		return true
+	}
+	// the case ran to its end there: what its oracle found counts
+	if len(r.Violations) > 0 {
+		confirmMu.Lock()
+		d.extraViol = append(d.extraViol, r.Violations...)
+		confirmMu.Unlock()
+	}
+	return false
 }
+
+var confirmMu sync.Mutex
 
 // Run executes the check and returns the process exit code.
 func (d *Driver) Run() int {
